@@ -193,7 +193,8 @@ def run(ck):
                 except Exception as e:
                     ck.fail("raises:" + tagx, "RelaxationTensor.transform raised %r" % (e,), dict(inp, S=[[str(z) for z in r] for r in Sx]))
                     continue
-                emit("transform %d %s %s %s" % (n, cvals(RR), cvals(numpy.conj(Sx.T)), cvals(Sx)), tx._data, 1e-9)
+                if ck.quick or h % 4 == 0 or n <= 2:       # (the exact rational evaluation is expensive for n = 4: a quarter of them in the long tier)
+                    emit("transform %d %s %s %s" % (n, cvals(RR), cvals(numpy.conj(Sx.T)), cvals(Sx)), tx._data, 1e-9)
                 identities(numpy, tx._data, "tensor after RelaxationTensor.transform(S)", ck, dict(inp, S=[[str(z) for z in r] for r in Sx]), tagx,
                            herm=hermitian_input)
             # the basis context of a complex Hermitian operator (its eigenvectors form a complex unitary matrix)
